@@ -59,7 +59,7 @@ def floor(tier):
 
 
 def cases(tier, rng):
-    n = 150 if tier == "quick" else 4000
+    n = 150 if tier == "quick" else 10000
     out = []
     for i in range(n):
         kind = cards.XSS[i % len(cards.XSS)]
